@@ -160,6 +160,17 @@ class ExprCanon(ast.NodeTransformer):
             return _loc(ast.BoolOp(op=ast.And(), values=parts), node)
         op = node.ops[0]
         l, r = node.left, node.comparators[0]
+        # sentinels: identical only to themselves
+        S_ = _SENTINELS[-1]
+        if S_ and isinstance(op, (ast.Is, ast.IsNot)):
+            ls, rs = isinstance(l, ast.Name) and l.id in S_, isinstance(r, ast.Name) and r.id in S_
+            verdict = None
+            if ls and rs:
+                verdict = l.id == r.id
+            elif (ls and _not_a_sentinel(r)) or (rs and _not_a_sentinel(l)):
+                verdict = False
+            if verdict is not None:
+                return _loc(ast.Constant(value=verdict if isinstance(op, ast.Is) else not verdict), node)
         # two literal constants (None / bool / str): `None is None`, `'a' == 'b'`
         if isinstance(l, ast.Constant) and isinstance(r, ast.Constant) and all(x.value is None or isinstance(x.value, (bool, str)) for x in (l, r)):
             same = (l.value is r.value) if (l.value is None or r.value is None or isinstance(l.value, bool) or isinstance(r.value, bool)) else (l.value == r.value)
@@ -308,8 +319,70 @@ class ExprCanon(ast.NodeTransformer):
             node.values = new_vals
         return node
 
+    def _fuse_generators(self, node):
+        """`.. for (a, b) in ((E1, E2) for y in Y) ..` -> `.. for y in Y ..` with a := E1, b := E2 (each used at most once,
+        or atomic): a comprehension over a generator of tuples is the comprehension over what the generator walks"""
+        from .unextract import _pure
+
+        changed = True
+        while changed:
+            changed = False
+            for gi, g in enumerate(node.generators):
+                inner = g.iter
+                if not (isinstance(inner, (ast.GeneratorExp, ast.ListComp)) and len(inner.generators) == 1 and not inner.generators[0].is_async and not g.is_async):
+                    continue
+                ig = inner.generators[0]
+                if isinstance(g.target, ast.Name):
+                    names, vals = [g.target.id], [inner.elt]
+                elif isinstance(g.target, ast.Tuple) and isinstance(inner.elt, ast.Tuple) and len(g.target.elts) == len(inner.elt.elts) and all(isinstance(e, ast.Name) for e in g.target.elts):
+                    names, vals = [e.id for e in g.target.elts], list(inner.elt.elts)
+                else:
+                    continue
+                inner_bound = {x.id for x in ast.walk(ig.target) if isinstance(x, ast.Name)}
+                if inner_bound & set(names) or len(set(names)) != len(names):
+                    continue
+                later = list(g.ifs) + [y for g2 in node.generators[gi + 1:] for y in [g2.iter] + list(g2.ifs)]
+                body = later + ([node.key, node.value] if isinstance(node, ast.DictComp) else [node.elt])
+                # names of the inner generator must not collide with names used in the outer parts
+                outer_names = {x.id for e in body for x in ast.walk(e) if isinstance(x, ast.Name)} | {x.id for g2 in node.generators if g2 is not g for x in ast.walk(g2.target) if isinstance(x, ast.Name)}
+                if inner_bound & (outer_names - set(names)):
+                    continue
+                uses = {nm: sum(1 for e in body for x in ast.walk(e) if isinstance(x, ast.Name) and x.id == nm and isinstance(x.ctx, ast.Load)) for nm in names}
+                if any(isinstance(x, ast.Name) and x.id in names and isinstance(x.ctx, ast.Store) for e in body for x in ast.walk(e)):
+                    continue
+                if not all(uses[nm] <= 1 or _pure(v) for nm, v in zip(names, vals)):
+                    continue
+                # with several values used once each, their order of evaluation must stay the tuple's: keep it simple
+                # and require that at most one of them can have an effect
+                if sum(1 for v in vals if not _pure(v)) > 1:
+                    continue
+                m = dict(zip(names, vals))
+                sub = _SubstNames(m)
+                new_ifs = [sub.visit(copy.deepcopy(c)) for c in g.ifs]
+                node.generators[gi] = ast.comprehension(target=ig.target, iter=ig.iter, ifs=list(ig.ifs) + new_ifs, is_async=0)
+                for g2 in node.generators[gi + 1:]:
+                    g2.iter = sub.visit(g2.iter)
+                    g2.ifs = [sub.visit(c) for c in g2.ifs]
+                if isinstance(node, ast.DictComp):
+                    node.key, node.value = sub.visit(node.key), sub.visit(node.value)
+                else:
+                    node.elt = sub.visit(node.elt)
+                ast.fix_missing_locations(node)
+                changed = True
+                break
+        return node
+
+    def visit_ListComp(self, node):
+        self.generic_visit(node)
+        return self._fuse_generators(node)
+
+    def visit_GeneratorExp(self, node):
+        self.generic_visit(node)
+        return self._fuse_generators(node)
+
     def visit_DictComp(self, node):
         self.generic_visit(node)
+        node = self._fuse_generators(node)
         # {k: x for k, (x, _) in {<display>}.items()}  ->  the projected display
         if len(node.generators) == 1 and not node.generators[0].ifs:
             g = node.generators[0]
@@ -488,6 +561,52 @@ def _fold_dict_stores(stmts):
 
 
 _CLOSURE_NAMES = []  # per enclosing function being canonicalised: names read by its nested functions / lambdas
+_SENTINELS = [set()]  # per module being canonicalised: names of private sentinel objects (see module_sentinels)
+
+
+def module_sentinels(tree):
+    """module-level names bound once to `object()` and otherwise only read as the right-hand side of a plain
+    assignment to a name, as a returned value, or as an operand of `is` / `is not`: no value that was not assigned
+    from such a name can be identical to it (it is never stored in a container or attribute, nor passed to a call)"""
+    cands = {}
+    for st in tree.body:
+        if isinstance(st, ast.Assign) and len(st.targets) == 1 and isinstance(st.targets[0], ast.Name) and isinstance(st.value, ast.Call) and isinstance(st.value.func, ast.Name) and st.value.func.id == "object" and not st.value.args and not st.value.keywords:
+            cands[st.targets[0].id] = st
+    if not cands:
+        return set()
+    pm = {}
+    for n in ast.walk(tree):
+        for c in ast.iter_child_nodes(n):
+            pm[id(c)] = n
+    bad = set()
+    for n in ast.walk(tree):
+        if isinstance(n, ast.Name) and n.id in cands:
+            if isinstance(n.ctx, (ast.Store, ast.Del)):
+                if n is not cands[n.id].targets[0]:
+                    bad.add(n.id)
+                continue
+            par = pm.get(id(n))
+            if isinstance(par, ast.Assign) and par.value is n and len(par.targets) == 1 and isinstance(par.targets[0], ast.Name):
+                continue
+            if isinstance(par, ast.Return):
+                continue
+            if isinstance(par, ast.Compare) and len(par.ops) == 1 and isinstance(par.ops[0], (ast.Is, ast.IsNot)):
+                continue
+            bad.add(n.id)
+        elif isinstance(n, ast.alias) and n.name in cands:
+            bad.add(n.name)
+    exported = False
+    return {k for k in cands if k not in bad and k.startswith("_")}
+
+
+def _not_a_sentinel(e):
+    """an expression whose value cannot be one of the module's sentinels: anything that is not such a name itself,
+    a name (it could have been assigned one) or a call (a function of the module may return one)"""
+    if isinstance(e, ast.Constant):
+        return True
+    if isinstance(e, (ast.Attribute, ast.Subscript, ast.BinOp, ast.Tuple, ast.List, ast.Dict, ast.Set, ast.JoinedStr, ast.ListComp, ast.DictComp, ast.SetComp, ast.GeneratorExp, ast.Compare, ast.BoolOp, ast.UnaryOp)):
+        return not (isinstance(e, ast.BoolOp))
+    return False
 
 
 def _split_tuple_assigns(stmts):
@@ -949,6 +1068,7 @@ def canon_block(stmts):
     stmts = _strip_annotations(stmts)
     stmts = _sink_flag(stmts)
     stmts = _thread_known_arm(stmts)
+    stmts = _thread_search_loop(stmts)
     stmts = _expand_walrus(stmts)
     stmts = _expand_ifexp(stmts)
     stmts = _split_tuple_assigns(stmts)
@@ -1109,6 +1229,24 @@ def _bool_if_deep(s):
         s.body = [_bool_if_deep(x) for x in s.body]
         s.orelse = [_bool_if_deep(x) for x in s.orelse]
     return _bool_if(s)
+
+
+def _cannot_raise(stmts):
+    """statements built from plain local names and constants only: no evaluation in them can raise"""
+    def simple(e):
+        return e is None or isinstance(e, ast.Constant) or (isinstance(e, ast.Name) and isinstance(e.ctx, ast.Load))
+
+    for st in stmts:
+        if isinstance(st, (ast.Pass, ast.Break, ast.Continue)):
+            continue
+        if isinstance(st, ast.Return) and simple(st.value):
+            continue
+        if isinstance(st, ast.Assign) and len(st.targets) == 1 and isinstance(st.targets[0], ast.Name) and simple(st.value):
+            continue
+        if isinstance(st, ast.If) and (simple(st.test) or (isinstance(st.test, ast.UnaryOp) and isinstance(st.test.op, ast.Not) and simple(st.test.operand)) or (isinstance(st.test, ast.Compare) and len(st.test.ops) == 1 and isinstance(st.test.ops[0], (ast.Is, ast.IsNot)) and simple(st.test.left) and simple(st.test.comparators[0]))) and _cannot_raise(st.body) and _cannot_raise(st.orelse):
+            continue
+        return False
+    return True
 
 
 def _table_dispatch_var(stmts):
@@ -1622,6 +1760,84 @@ def _sink_flag(stmts):
     return out
 
 
+def _thread_search_loop(stmts):
+    """a search loop that reports through a sentinel:
+        for x in X: .. if c: v = E; break ..          for x in X: .. if c: NEXT[v := E] ..
+        else: v = S                              ==>   else: NEXT[v := S]
+        NEXT                 (tests `v is S`, always leaves the function)
+    E a loop variable / attribute / subscript (not a sentinel by module_sentinels), v dead after NEXT."""
+    S_ = _SENTINELS[-1]
+    if not S_:
+        return stmts
+    out = list(stmts)
+    i = 0
+    while i + 1 < len(out):
+        loop, nxt = out[i], out[i + 1]
+        if isinstance(loop, ast.For) and len(loop.orelse) == 1 and isinstance(loop.orelse[0], ast.Assign) and len(loop.orelse[0].targets) == 1 and isinstance(loop.orelse[0].targets[0], ast.Name) and isinstance(loop.orelse[0].value, ast.Name) and loop.orelse[0].value.id in S_ and _exits([nxt]) and isinstance(nxt, (ast.Return, ast.If)):
+            v, S = loop.orelse[0].targets[0].id, loop.orelse[0].value
+            if any(_mentions(x, v) for x in out[i + 2:]) or not _mentions(nxt, v):
+                i += 1
+                continue
+            # every break of this loop directly follows `v = E`
+            sites = []
+            ok = True
+
+            def scan(block):
+                nonlocal ok
+                for k, st in enumerate(block):
+                    if isinstance(st, ast.Break):
+                        prev = block[k - 1] if k else None
+                        if isinstance(prev, ast.Assign) and len(prev.targets) == 1 and isinstance(prev.targets[0], ast.Name) and prev.targets[0].id == v and isinstance(prev.value, (ast.Name, ast.Attribute, ast.Subscript)) and not (isinstance(prev.value, ast.Name) and prev.value.id in S_) and not any(isinstance(x, ast.Call) for x in ast.walk(prev.value)):
+                            sites.append((block, k))
+                        else:
+                            ok = False
+                    elif isinstance(st, (ast.For, ast.AsyncFor, ast.While)):
+                        continue  # breaks inside belong to the inner loop
+                    elif isinstance(st, (ast.FunctionDef, ast.AsyncFunctionDef, ast.ClassDef)):
+                        continue
+                    else:
+                        for f_ in ("body", "orelse", "finalbody"):
+                            sub = getattr(st, f_, None)
+                            if isinstance(sub, list) and sub and isinstance(sub[0], ast.stmt):
+                                scan(sub)
+                        for h in getattr(st, "handlers", []) or []:
+                            scan(h.body)
+
+            scan(loop.body)
+            other_stores = [x for st in loop.body for x in ast.walk(st) if isinstance(x, ast.Name) and x.id == v and isinstance(x.ctx, (ast.Store, ast.Del))]
+            if not ok or not sites or len(other_stores) != len(sites) or any(isinstance(x, ast.Name) and x.id == v and isinstance(x.ctx, (ast.Store, ast.Del)) for x in ast.walk(nxt)):
+                i += 1
+                continue
+
+            def inst(value, is_sentinel):
+                class R(ast.NodeTransformer):
+                    def visit_Compare(self, n):
+                        if len(n.ops) == 1 and isinstance(n.ops[0], (ast.Is, ast.IsNot)):
+                            l, r = n.left, n.comparators[0]
+                            if (isinstance(l, ast.Name) and l.id == v and isinstance(r, ast.Name) and r.id == S.id) or (isinstance(r, ast.Name) and r.id == v and isinstance(l, ast.Name) and l.id == S.id):
+                                return _loc(ast.Constant(value=is_sentinel if isinstance(n.ops[0], ast.Is) else not is_sentinel), n)
+                        self.generic_visit(n)
+                        return n
+
+                    def visit_Name(self, n):
+                        if n.id == v and isinstance(n.ctx, ast.Load):
+                            return _loc(copy.deepcopy(value), n)
+                        return n
+
+                c = R().visit(copy.deepcopy(nxt))
+                c = _Tests().visit(ExprCanon().visit(ast.fix_missing_locations(c)))
+                return c
+
+            for block, k in sorted(sites, key=lambda t: -t[1]):
+                E = block[k - 1].value
+                block[k - 1:k + 1] = _fold_constant_ifs([inst(E, False)])
+            loop.orelse = _fold_constant_ifs([inst(S, True)])
+            out[i:i + 2] = [canon_stmt(ast.fix_missing_locations(loop))]
+            continue
+        i += 1
+    return out
+
+
 def _thread_known_arm(stmts):
     """`if c: ..; t = E else: ..; t = K` (K a literal None / True / False) followed by an `if` that tests t, t not being
     read anywhere else afterwards: the second `if` is moved into the arms, in the arm of the constant with K in place
@@ -1896,6 +2112,11 @@ def _canon_stmt(s):
             h.body = canon_block(h.body)
         s.orelse = canon_block(s.orelse)
         s.finalbody = canon_block(s.finalbody)
+        # `try: A except ..: H else: B` with B unable to raise (returns / assignments of names and constants, tests of
+        # plain names)  ==  `try: A; B except ..: H`
+        if s.orelse and s.handlers and _cannot_raise(s.orelse):
+            s.body = canon_block(list(s.body) + list(s.orelse))
+            s.orelse = []
         # `except E [as e]: raise [e]` changes nothing (but the traceback): a try with only such handlers is its body
         def _noop(h):
             if len(h.body) != 1 or not isinstance(h.body[0], ast.Raise) or h.body[0].cause is not None:
@@ -1908,6 +2129,16 @@ def _canon_stmt(s):
 
 
 def canonicalise(tree):
+    from .casesplit import split_cases
+
+    _SENTINELS.append(module_sentinels(tree))
+    try:
+        return _canonicalise(tree)
+    finally:
+        _SENTINELS.pop()
+
+
+def _canonicalise(tree):
     from .casesplit import split_cases
 
     tree = _canonicalise_once(tree)
